@@ -280,6 +280,9 @@ def _get_transforms(nusc: NuScenes, sample_data_token: str) -> List[HomogeneousM
         matrices.extend((sensor2ego, sensor2map))
         if "CAM_TRAFFIC_LIGHT" in sensor_frame_id.value.upper():
             tlr_avg_pos.append(sensor_position)
+            # q and -q are one and the same rotation: keep the signs consistent, otherwise they cancel in the average
+            if len(tlr_avg_quat) > 0 and np.dot(tlr_avg_quat[0].q, sensor_rotation.q) < 0:
+                sensor_rotation = -sensor_rotation
             tlr_avg_quat.append(sensor_rotation)
 
     # NOTE: Average positions and rotations are used for matrices of cameras related to TLR.
